@@ -68,11 +68,32 @@ def _gen_main(rng, tier):
                 yield f"to_radix_le {s}{cfg} {r} 5", "bad-radix"
 
 
+def digit_count_boundaries(rng, tier):
+    """r^k and r^k - 1 for EVERY k below the capacity (the numerals 100..0 and zz..z of every length):
+    where a digit-count estimate or a chunk boundary can be off by one.  One wide and one odd-width
+    configuration (added after seeded change C12-r4m1)."""
+    for cfg in ["64x16", "8x17"] + (["16x20", "32x10", "8x40"] if tier == "thorough" else []):
+        w, n = wn(cfg)
+        M = 1 << (w * n)
+        for r in list(range(2, 37)) + [37, 100, 128, 255, 256]:
+            k, p = 1, r
+            while p < M:
+                for v in (p, p - 1):
+                    s = "ui"[(k + v) & 1]
+                    if r <= 36:
+                        yield f"to_str_radix {s}{cfg} {r} {hx(v)}", "digit-count-boundary"
+                    else:
+                        yield f"to_radix_le {s}{cfg} {r} {hx(v)}", "digit-count-boundary"
+                k += 1
+                p *= r
+
+
 def ROUTE(line):
     return _ws.route(line, "c10")
 
 
 def gen(rng, tier):
     yield from _gen_main(rng, tier)
+    yield from digit_count_boundaries(rng, tier)
     if tier == "thorough":
         yield from _ws.print_(rng)
